@@ -153,7 +153,10 @@ func runWorker(t *testing.T, w World) {
 		}
 		if r.Viol != nil {
 			before := len(r.Tape)
-			m, execs := Minimise(t, w, prop, tier, r, 300, 60*time.Second)
+			m, execs := r, 0
+			if !r.NoMin {
+				m, execs = Minimise(t, w, prop, tier, r, 300, 60*time.Second)
+			}
 			tr := m.Log
 			if len(tr) > 200 {
 				tr = tr[len(tr)-200:]
@@ -164,7 +167,7 @@ func runWorker(t *testing.T, w World) {
 				MinimiseExecs: execs, Message: m.Viol.Msg, MessageDigest: digest(m.Viol.Oracle + "|" + m.Viol.Class),
 				Trace: tr,
 			})
-			if len(rep.Violations) >= 3 {
+			if len(rep.Violations) >= 3 || r.NoMin {
 				break
 			}
 		}
